@@ -56,6 +56,13 @@ def finite_values(e: ast.AST, sym: str) -> Optional[List[Tuple[Fraction, Fractio
     if isinstance(e, ast.UnaryOp) and isinstance(e.op, ast.USub):
         v = finite_values(e.operand, sym)
         return None if v is None else [(-a, -b) for a, b in v]
+    if isinstance(e, ast.Call) and call_name(e) == "np.where" and len(e.args) == 3:
+        # element-wise selection: every entry is one of the two alternatives
+        a_, b_ = finite_values(e.args[1], sym), finite_values(e.args[2], sym)
+        return None if a_ is None or b_ is None else sorted(set(a_) | set(b_))
+    if isinstance(e, ast.IfExp):
+        a_, b_ = finite_values(e.body, sym), finite_values(e.orelse, sym)
+        return None if a_ is None or b_ is None else sorted(set(a_) | set(b_))
     if isinstance(e, ast.BinOp):
         l, r_ = finite_values(e.left, sym), finite_values(e.right, sym)
         if l is None or r_ is None:
@@ -197,7 +204,13 @@ def check(ctx):
                 return state.get(v.id, frozenset())
             cv = canon(v)
             if (isinstance(v, ast.BinOp) and is_randint(v.left) is not None) or is_randint(v) is not None:
+                before = set(issues)
                 okd = bound_draw(v, None)
+                if okd is False:
+                    # reported only if the draw becomes the matrix's random part (a sign draw for the diagonal is not one)
+                    for k_ in set(issues) - before:
+                        pending[id(v)] = issues.pop(k_)
+                    return frozenset({"XDRAW"})
                 return frozenset({"DRAW"}) if okd else frozenset()
             if call_name(v) in ("np.tril", "np.triu") and v.args:
                 inner = self.eval(v.args[0], state, flow)
@@ -212,6 +225,9 @@ def check(ctx):
                 if "DRAW" in inner:
                     notes[id(v)] = f"strictly triangular part ({call_name(v)}, k={kk})"
                     return frozenset({"TRI"})
+                if "XDRAW" in inner:
+                    for k_, iss in list(pending.items()):
+                        issues[k_] = iss
                 return frozenset()
             if call_name(v) == "np.zeros":
                 notes[id(v)] = "zero matrix (degenerate branch)"
@@ -271,6 +287,33 @@ def check(ctx):
         def eval_unpack(self, value, i, n, state, flow):
             return frozenset()
 
+        def after_stmt(self, node, state, flow):
+            # M[np.triu_indices(n)] = 0 : the in-place spelling of np.tril(M, -1) (and its mirror image)
+            s_ = node.stmt
+            if node.kind == "stmt" and isinstance(s_, ast.Assign) and len(s_.targets) == 1 and isinstance(s_.targets[0], ast.Subscript) and isinstance(s_.targets[0].value, ast.Name) \
+                    and const_num(s_.value) == 0 and call_name(s_.targets[0].slice) in ("np.triu_indices", "np.tril_indices", "np.triu_indices_from", "np.tril_indices_from"):
+                sl = s_.targets[0].slice
+                which = call_name(sl)
+                ka = sl.args[1] if len(sl.args) > 1 else kw(sl, "k")
+                kk = 0 if ka is None else const_num(ka)
+                m_ = s_.targets[0].value.id
+                pre = (flow.inn.get(node.id) or {}).get(m_, frozenset())
+                strict = kk is not None and ((which.startswith("np.triu") and kk <= 0) or (which.startswith("np.tril") and kk >= 0))
+                if "NS" in pre:
+                    issues[id(s_)] = (s_, "a triangle of the matrix is zeroed after the diagonal was added: the basis loses its diagonal", "triangle zeroed after diagonal")
+                    state[m_] = frozenset()
+                elif not strict:
+                    issues[id(s_)] = (s_, f"the random part keeps its diagonal ({which}(., {kk}) is zeroed): the sum with the +-d diagonal can be singular and its entries exceed the mesh ratio", f"non-strict triangular part {which} k={kk}")
+                    state[m_] = frozenset()
+                elif "DRAW" in pre:
+                    notes[id(s_)] = f"strictly triangular part (zeroing {which}, k={kk})"
+                    state[m_] = frozenset({"TRI"})
+                elif "XDRAW" in pre:
+                    for k_, iss in list(pending.items()):
+                        issues[k_] = iss
+            return state
+
+    pending = {}
     mf = TagFlow(prog, gen, MatPolicy())
     rets_ = [n for n in ast.walk(gen.node) if isinstance(n, ast.Return) and n.value is not None]
     final = None
